@@ -53,7 +53,7 @@ def _run_shard(work, binp, check, idx, scs, module="ResponderTrace.tla"):
             ln = (last or {}).get("ln", 0)
             lines = text.split("\n")
             nxt = ln + 1
-            while nxt <= len(lines) and not lines[nxt - 1].startswith(("RX", "RXALL", "DRAIN", "LDRAIN", "FLOOD", "PIPE")):
+            while nxt <= len(lines) and lines[nxt - 1].split(" ")[0] in ("MARK", "CFG", "IF", "ADV", "FAULT", "CLEAR", ""):
                 nxt += 1
             if last and last.get("e") == "req" and lines[ln - 1].startswith(("DRAIN", "LDRAIN")):
                 nxt = ln
@@ -131,6 +131,7 @@ def match_known(prop, sc, why):
 
 
 def run_campaign(prop, check, scenarios, seed, work, binp, module="ResponderTrace.tla"):
+    vlib.PRIMARY[0] = prop
     shards = vlib.shard(scenarios, NSHARDS)
     results = vlib.parallel(lambda t: _run_shard(work, binp, check, t[0], t[1], module), list(enumerate(shards)), workers=NSHARDS)
     tot = {"events": 0, "exercised": 0, "accepted": 0, "states": 0, "generated": 0}
@@ -151,10 +152,10 @@ def run_campaign(prop, check, scenarios, seed, work, binp, module="ResponderTrac
     return tot, viol, known
 
 
-def finish(prop, tier, seed, t0, level, check, tot, viol, known, mcs, scenarios, assumptions, extra_cov=None, rule=None):
+def finish(prop, tier, seed, t0, level, check, tot, viol, known, mcs, scenarios, assumptions, extra_cov=None, rule=None, kind="responder"):
     replays = []
     for i, (sc, why) in enumerate(viol[:8]):   # a handful of replays is enough to act on
-        replays.append(vlib.write_replay(prop, check, sc, why, seed, i))
+        replays.append(vlib.write_replay(prop, check, sc, why, seed, i, kind=kind))
     for k, sc in known:
         print("KNOWN-FINDING: property=%s %s" % (prop, k.get("what", "")))
     cov = {
@@ -200,6 +201,22 @@ def responder_check(prop, tier, seed, t0, check, scenarios, mc=(), level="model_
     mcs = [mc_step(work, m, c, scope=1 if tier == "quick" else 2) for m, c in mc]
     tot, viol, known = run_campaign(prop, check, scenarios, seed, work, binp)
     rc = finish(prop, tier, seed, t0, level, check, tot, viol, known, mcs, scenarios, ASSUME_COMMON + list(assumptions), extra_cov)
+    if rc == 0:
+        work.cleanup()
+    return rc
+
+
+def automata_check(prop, tier, seed, t0, check, scenarios, mc=(), level="model_checking", assumptions=(), extra_cov=None):
+    work = vlib.Work(prop)
+    binp = vlib.build_automata("asan")
+    mcs = [mc_step(work, m, c, scope=1 if tier == "quick" else 2) for m, c in mc]
+    tot, viol, known = run_campaign(prop, check, scenarios, seed, work, binp, module="AutomataTrace.tla")
+    ass = ASSUME_COMMON + list(assumptions)
+    if vlib.GLUE_FALLBACK_USED[0]:
+        ass.append("anchors of the Darwin frame path not found in os/darwin/daemon/darwin-main.c: transcription harness/glue_fallback.inc used")
+    else:
+        ass.append("the frame path of the Darwin daemon is extracted textually from os/darwin/daemon/darwin-main.c of the working tree and compiled against a shim")
+    rc = finish(prop, tier, seed, t0, level, check, tot, viol, known, mcs, scenarios, ass, extra_cov, kind="automata")
     if rc == 0:
         work.cleanup()
     return rc
@@ -286,18 +303,65 @@ def c18(prop, tier, seed, t0):
                     counts[sc.name] = (ev["na"], ev["ns"])
     work.cleanup()
     scs = campaigns.campaign_c18(seed, tier, counts)
-    return responder_check(prop, tier, seed, t0, {"C18", "C02", "C19", "EQ"}, scs, level="fault_enumeration",
-                           assumptions=["fault plans: k-th allocation (every k up to the fault-free count + 1), every single transmit, all transmits, "
-                                        "getter subsets; the constructors are covered by the automata driver (see C18 evidence 'constructors')",
-                                        "an MTU getter failure is only injected on interfaces whose MTU is the documented fallback 1500"],
-                           extra_cov={"fault_free_counts": {k: list(v) for k, v in sorted(counts.items())}})
+    check = {"C18", "C02", "C19", "EQ"}
+    work = vlib.Work(prop)
+    tot, viol, known = run_campaign(prop, check, scs, seed, work, binp)
+    # the automata constructors with the k-th allocation failing (automata driver)
+    import acampaigns
+    ctor = acampaigns.campaign_c18_ctor()
+    abin = vlib.build_automata("asan")
+    tot2, viol2, known2 = run_campaign(prop, {"C18"}, ctor, seed, work, abin, module="AutomataTrace.tla")
+    for k in tot:
+        tot[k] += tot2[k]
+    replays = [vlib.write_replay(prop, {"C18"}, sc, why, seed, 100 + i, kind="automata") for i, (sc, why) in enumerate(viol2)]
+    for p in replays:
+        print("VIOLATION property=%s replay=%s" % (prop, p))
+    rc = finish(prop, tier, seed, t0, "fault_enumeration", check, tot, viol, known + known2, [], scs + ctor, ASSUME_COMMON + [
+        "fault plans: k-th allocation (every k up to the fault-free count + 1), every single transmit, all transmits, getter subsets, per corpus request; "
+        "constructors: init_automata_mapping/session/enumeration and session_table_create with allocation k = 0..3 failing",
+        "an MTU getter failure is only injected on interfaces whose MTU is the documented fallback 1500"],
+        extra_cov={"fault_free_counts": {k: list(v) for k, v in sorted(counts.items())}, "constructor_plans": len(ctor),
+                   "violations_constructors": len(viol2)})
+    if rc == 0 and not viol2:
+        work.cleanup()
+    return 1 if (rc or viol2) else 0
 
 
 def c19(prop, tier, seed, t0):
     return responder_check(prop, tier, seed, t0, {"C19"}, campaigns.campaign_c19(seed, tier))
 
 
-REGISTRY = {"C01": c01, "C02": c02, "C03": c03, "C04": c04, "C05": c05, "C06": c06, "C07": c07, "C08": c08, "C09": c09, "C10": c10, "C18": c18, "C19": c19}
+def c11(prop, tier, seed, t0):
+    import acampaigns
+    return automata_check(prop, tier, seed, t0, {"C11"}, acampaigns.campaign_c11(seed, tier))
+
+
+def c12(prop, tier, seed, t0):
+    import acampaigns
+    return automata_check(prop, tier, seed, t0, {"C12"}, acampaigns.campaign_c12(seed, tier))
+
+
+def c13(prop, tier, seed, t0):
+    import acampaigns
+    return automata_check(prop, tier, seed, t0, {"C13"}, acampaigns.campaign_c13(seed, tier))
+
+
+def c14(prop, tier, seed, t0):
+    import acampaigns
+    return automata_check(prop, tier, seed, t0, {"C14"}, acampaigns.campaign_c14(seed, tier))
+
+
+def c15(prop, tier, seed, t0):
+    import acampaigns
+    return automata_check(prop, tier, seed, t0, {"C15"}, acampaigns.campaign_c15(seed, tier))
+
+
+def c16(prop, tier, seed, t0):
+    import acampaigns
+    return automata_check(prop, tier, seed, t0, {"C16"}, acampaigns.campaign_c16(seed, tier))
+
+
+REGISTRY = {"C11": c11, "C12": c12, "C13": c13, "C14": c14, "C15": c15, "C16": c16, "C01": c01, "C02": c02, "C03": c03, "C04": c04, "C05": c05, "C06": c06, "C07": c07, "C08": c08, "C09": c09, "C10": c10, "C18": c18, "C19": c19}
 
 
 # =========================================================================== replay
@@ -311,9 +375,13 @@ def replay(path):
     body = [l for l in lines if l and not l.startswith("#")]
     sc = Scenario("replay", body)
     work = vlib.Work("replay")
+    vlib.PRIMARY[0] = prop
     if kind == "responder":
         binp = vlib.build_responder("asan")
         bad, why = confirm(work, binp, check, sc)
+    elif kind == "automata":
+        binp = vlib.build_automata("asan")
+        bad, why = confirm(work, binp, check, sc, module="AutomataTrace.tla")
     else:
         raise Infra("unknown replay kind " + kind)
     if bad:
